@@ -78,6 +78,8 @@ def run(ctx):
         fld = np.array(fld, dtype=complex)
         if lead0:
             fld[..., :5] = 0
+        if npol == 2 and it % 8 == 3:
+            fld[0] = 0                      # x polarisation empty, field in y only
         if it % 6 == 5:
             fld = fld * math.sqrt(1e-3 / peak(fld))        # weak signal: the first adaptive step is longer than the fibre (overshoot + negative last step)
         x = optical_signal(fld)
@@ -95,7 +97,11 @@ def run(ctx):
         meta.append(("finite", npol, lead0))
         ein, eout = np.sum(np.abs(np.atleast_2d(fld)) ** 2, axis=-1), np.sum(np.abs(np.atleast_2d(so)) ** 2, axis=-1)
         for p_ in range(npol):
-            events.append({"kind": "energy", "ppb": int(min(10 ** 9, abs(eout[p_] / (ein[p_] * 10 ** (-al * L / 10)) - 1) * 1e9)), "dB": int(math.ceil(al * L))})
+            if ein[p_] == 0:
+                ppb = 0 if eout[p_] <= 1e-30 * max(ein.max(), 1e-300) else 10 ** 9      # an empty polarisation stays empty
+            else:
+                ppb = int(min(10 ** 9, abs(eout[p_] / (ein[p_] * 10 ** (-al * L / 10)) - 1) * 1e9))
+            events.append({"kind": "energy", "ppb": ppb, "dB": int(math.ceil(al * L))})
             meta.append(("energy", npol, lead0))
         # controller trace
         steps, prev, pmax = [], fld, P
@@ -132,7 +138,7 @@ def run(ctx):
             o = FIBER(x, L, 0.0, 0.0, 0.0, gamma)
         want = fld * (1j ** ((m * levels) % 4))
         law("SPM-lattice-j^m", np.atleast_2d(o.signal)[0] + 1, want + 1)
-        al = rnd.choice([0.2, 0.5])
+        al = rnd.choice([0.2, 0.5, 0.004, 0.0005])
         L1, L2 = L * 0.3, L * 0.7
         with deadline(120):
             law("SPM-closed-form-with-loss", FIBER(FIBER(x, L1, al, 0, 0, gamma), L2, al, 0, 0, gamma).signal + 1, FIBER(x, L, al, 0, 0, gamma).signal + 1)
